@@ -378,10 +378,19 @@ enum Expect { Sync, Nothing }
 /// `three`: mirror on the `webrtc-srtp` shadow (only where it can follow: no preset state, no eviction)
 struct Case { ops: Vec<Op>, expect: Expect, kind: &'static str, three: bool }
 
+/// the case kinds behind known findings mark where the KNOWN failure is expected (`resume_from` = first op
+/// after the idle time); anything failing before that point gets the unlisted `:warmup` signature
+thread_local! { static RESUME_FROM: std::cell::Cell<usize> = std::cell::Cell::new(usize::MAX); }
+fn kind_at(kind: &'static str, i: usize) -> String {
+    if kind == "tx-evicted" || kind == "rx-evicted" {
+        if i >= RESUME_FROM.with(|r| r.get()) { format!("{kind}:resume") } else { format!("{kind}:warmup") }
+    } else { kind.to_string() }
+}
+
 /// `truth[slot]` = the sender's true 48-bit index of the RTP packet in that slot, reconstructed from
 /// the script alone (never from the implementation): per (session, SSRC) the first packet has index
-/// `seq`, every later one moves forward by `(seq − previous seq) mod 2^16` — the generators of
-/// `Sync` cases only ever send forward, in steps below 2^15.
+/// `seq`, every later one is the index with that sequence number nearest to the highest index sent so far
+/// (the generators of `Sync` cases send forward in steps below 2^15 and retransmit older packets).
 fn truth_from_ops(ops: &[Op]) -> Vec<Option<u64>> {
     let mut last: std::collections::BTreeMap<(usize, u32), u64> = Default::default();
     let mut truth = vec![];
@@ -389,8 +398,17 @@ fn truth_from_ops(ops: &[Op]) -> Vec<Option<u64>> {
         match op {
             Op::ProtectRtp(s, p) => {
                 let k = (*s, p.ssrc);
-                let idx = match last.get(&k) { None => p.seq as u64, Some(prev) => prev + (p.seq.wrapping_sub(*prev as u16)) as u64 };
-                last.insert(k, idx);
+                // RFC 3711 sender: the index with this sequence number NEAREST to the highest index sent so far
+                // (forward steps and retransmissions of older packets alike; |distance| < 2^15)
+                let idx = match last.get(&k) {
+                    None => p.seq as u64,
+                    Some(hi) => {
+                        let fwd = (p.seq.wrapping_sub(*hi as u16)) as u64;          // 0..65535 ahead
+                        if fwd < 32768 { hi + fwd } else { (hi + fwd).saturating_sub(65536) }
+                    }
+                };
+                let hi = last.get(&k).map_or(idx, |h| (*h).max(idx));
+                last.insert(k, hi);
                 truth.push(Some(idx));
             }
             Op::ProtectRtcp(..) | Op::ExtRtcp(..) => truth.push(None),
@@ -417,6 +435,7 @@ fn emit(run: &mut Run, stream: &str, c: &Case) {
     let mut high: std::collections::BTreeMap<(usize, u32), u64> = Default::default();
     let mut ref_last: std::collections::BTreeMap<(usize, u32), u64> = Default::default();
     let mut sent_rtcp: std::collections::BTreeMap<(usize, u32), u32> = Default::default();
+    let mut tx_high: std::collections::BTreeMap<(usize, u32), u64> = Default::default();
     for (i, op) in c.ops.iter().enumerate() {
         // decide expectation / mirroring before executing
         let mut expect_ok = false;
@@ -431,6 +450,14 @@ fn emit(run: &mut Run, stream: &str, c: &Case) {
                 key = Some((kk, *idx));
             } else { mirror = false; }
         } else if let Op::UnprotectRtp(..) = op { mirror = false; }
+        if let Op::ProtectRtp(s, spec) = op {
+            // webrtc-srtp's sender tracks the LAST packet it protected and mis-estimates a retransmission across a
+            // wrap, so retransmissions are compared with the RFC-text sender (ref3711) only
+            if let Some(Some(idx)) = truth.get(w.slots.len()) {
+                let h = tx_high.entry((*s, spec.ssrc)).or_insert(*idx);
+                if *idx < *h { mirror = false; run.count("retransmissions_protected"); } else { *h = *idx; }
+            }
+        }
         let r = w.exec(op, mirror);
         if let (Some((kk, idx)), true) = (key, r.is_ok()) {
             let h = high.entry(kk).or_insert(idx); *h = (*h).max(idx);
@@ -452,10 +479,13 @@ fn emit(run: &mut Run, stream: &str, c: &Case) {
                     let k = &w.keys[*s];
                     let r = ref3711::protect_rtp(&w.prof[*s], &k.0, &k.1, w.slot_plain.last().unwrap(), (*idx >> 16) as u32);
                     run.count("ref3711_rtp_compared");
-                    if r[..] != b[..] { run.fail(&format!("interop:ref3711-rtp-protect-bytes-differ:{}:{}", w.prof[*s], c.kind), &case, &format!("op {i}: ours {} rfc {}", hex(b), hex(&r))); }
+                    if r[..] != b[..] { run.fail(&format!("interop:ref3711-rtp-protect-bytes-differ:{}:{}", w.prof[*s], kind_at(c.kind, i)), &case, &format!("op {i}: ours {} rfc {}", hex(b), hex(&r))); }
                 }
             }
-            (Op::ProtectRtp(_, _), Res::Err(e)) => { run.count(&format!("protect_rtp_err:{e}")); }
+            (Op::ProtectRtp(s, _), Res::Err(e)) => {
+                run.count(&format!("protect_rtp_err:{e}"));
+                if sync { run.fail(&format!("roundtrip:protect-rtp-failed:{}:{}", w.prof[*s], c.kind), &case, &format!("op {i}: {e}")); }
+            }
             (Op::UnprotectRtp(s, src), r) => {
                 run.count(&format!("unprotect_rtp:{}:{}", w.prof[*s], match r { Res::Rtp(_) => "ok", Res::Err(e) => e, _ => "?" }));
                 if let (Src::Slot(k), true) = (src, expect_ok) {
@@ -463,7 +493,7 @@ fn emit(run: &mut Run, stream: &str, c: &Case) {
                     match (r, &w.slot_pkt[*k]) {
                         (Res::Rtp(p), Some(orig)) => if p != orig {
                             run.fail(&format!("roundtrip:rtp-decoded-packet-differs:{}", w.prof[*s]), &case, &format!("op {i}: got {:?} want {:?}", p, orig)); },
-                        (Res::Err(e), Some(_)) => run.fail(&format!("roundtrip:rtp-genuine-rejected:{}:{}", w.prof[*s], c.kind), &case, &format!("op {i}: {e}")),
+                        (Res::Err(e), Some(_)) => run.fail(&format!("roundtrip:rtp-genuine-rejected:{}:{}", w.prof[*s], kind_at(c.kind, i)), &case, &format!("op {i}: {e}")),
                         _ => {}
                     }
                     run.count("roundtrip_rtp_checked");
@@ -566,12 +596,26 @@ fn history_case(rng: &mut Rng, i: usize, prof: &str) -> Case {
     let mut slot = 0usize;
     let mut pending: Vec<(usize, usize, u64)> = vec![];   // (slot, ssrc index, true index) held back for reordering
     let mut high: Vec<Option<u64>> = vec![None; nssrc];
+    let mut sent_specs: Vec<(usize, u64, PktSpec)> = vec![];
     for _ in 0..n {
         let k = rng.below(nssrc as u64) as usize;
         let plen = *rng.pick(&[0usize, 1, 3, 16, 20, 40, 160, 700, 1200]);
-        ops.push(Op::ProtectRtp(0, shape(rng, (idx[k] & 0xffff) as u16, ssrcs[k], plen)));
+        let spec = shape(rng, (idx[k] & 0xffff) as u16, ssrcs[k], plen);
+        sent_specs.push((k, idx[k], spec.clone()));
+        ops.push(Op::ProtectRtp(0, spec));
         let me = (slot, k, idx[k]);
         slot += 1;
+        // retransmission (NACK "clone-resend"): the sender protects an OLDER packet of this stream again — it must
+        // come out under the rollover counter it had the first time, also across a wrap — and it is delivered
+        if rng.chance(1, 5) {
+            let cands: Vec<(usize, u64, PktSpec)> = sent_specs.iter().filter(|(kk, i0, _)| *kk == k && *i0 < idx[k] && idx[k] - *i0 < 30000).cloned().collect();
+            if !cands.is_empty() {
+                let (_, i0, sp) = rng.pick(&cands).clone();
+                ops.push(Op::ProtectRtp(0, sp));
+                if high[k].map_or(false, |h| (h as i64 - i0 as i64).abs() < 30000) { ops.push(Op::UnprotectRtp(1, Src::Slot(slot))); }
+                slot += 1;
+            }
+        }
         let mut deliver = vec![];
         match rng.below(10) {
             0 => {}                                                    // lost
@@ -621,6 +665,19 @@ fn boundary_cases(run: &mut Run, rng: &mut Rng) {
             vec![65535, 65536 + 32766, 65535 + 1, 65536 + 65533, 2 * 65536 + 5, 65536 + 65535 - 32000],
             vec![100, 99, 101, 50, 32866, 100 + 65535 - 32769],
         ];
+        // retransmission across a wrap: 65534 delivered, 65535 lost, 0 and 1 delivered (ROC 1), then the sender
+        // protects 65535 AGAIN (must be the ROC-0 packet, byte-identical) and it is delivered
+        {
+            let mut ops = new_pair(rng, pi, prof);
+            let mk = |seq: u16| PktSpec::simple(seq, 78, vec![seq as u8, 4, 4]);
+            for (seq, deliver) in [(65534u16, true), (65535, false), (0, true), (1, true), (65535, true), (2, true)] {
+                ops.push(Op::ProtectRtp(0, mk(seq)));
+                let slot = ops.iter().filter(|o| matches!(o, Op::ProtectRtp(..))).count() - 1;
+                if deliver { ops.push(Op::UnprotectRtp(1, Src::Slot(slot))); }
+            }
+            ops.push(Op::Snap(0)); ops.push(Op::Snap(1));
+            emit(run, "sess", &Case { ops, expect: Expect::Sync, kind: "retransmission", three: true });
+        }
         for (hi, h) in hist.iter().enumerate() {
             let mut ops = new_pair(rng, pi + hi, prof);
             // the sender walks the sorted distinct indices (its own estimate needs increasing steps < 2^15)
@@ -710,6 +767,7 @@ fn many_ssrc_cases(run: &mut Run, rng: &mut Rng) {
             for seq in [65000u16, 65500, 100, 200] { ops.push(Op::ProtectRtp(0, PktSpec::simple(seq, g, vec![seq as u8, 2]))); ops.push(Op::UnprotectRtp(1, Src::Slot(slot))); slot += 1; }
             ops.push(Op::Snap(0)); ops.push(Op::Snap(1));
             ops.push(Op::Tick(61));
+            let resume_from = ops.len() - 1;
             match kind {
                 "tx-evicted" => { ops.push(Op::ProtectRtp(0, PktSpec::simple(6, 0x2000, vec![9]))); slot += 1; }             // lost on the way
                 "rx-evicted" => {
@@ -722,7 +780,9 @@ fn many_ssrc_cases(run: &mut Run, rng: &mut Rng) {
             for seq in [300u16, 301] { ops.push(Op::ProtectRtp(0, PktSpec::simple(seq, g, vec![seq as u8, 7]))); ops.push(Op::UnprotectRtp(1, Src::Slot(slot))); slot += 1; }
             ops.push(Op::Snap(0)); ops.push(Op::Snap(1));
             let kind: &'static str = match kind { "tx-evicted" => "tx-evicted", "rx-evicted" => "rx-evicted", _ => "keep-ssrc" };
+            RESUME_FROM.with(|r| r.set(resume_from));
             emit(run, "sess", &Case { ops, expect: Expect::Sync, kind, three: false });
+            RESUME_FROM.with(|r| r.set(usize::MAX));
         }
     }
 }
@@ -770,6 +830,52 @@ fn active_stream_cases(run: &mut Run, rng: &mut Rng) {
             let kind: &'static str = match kind { "active-stream" => "active-stream", "active-stream-rtcp" => "active-stream-rtcp", _ => "keep-ssrc-rtcp" };
             emit(run, "sess", &Case { ops, expect: Expect::Sync, kind, three: false });
         }
+    }
+}
+
+
+/// EXACTLY AT the high-water mark (32 contexts: 31 streams + G at ROC 1, everything 61 s idle) nothing may be
+/// evicted: `at-watermark-tx` the sender uses another stream first, `at-watermark-rx` a NEW (33rd) stream
+/// arrives first (the receiver runs the eviction before it inserts the new context) — G then resumes.
+/// And just above it (33 contexts) with G resuming first (`keep-ssrc-33`).
+fn watermark_cases(run: &mut Run, rng: &mut Rng) {
+    for (pi, prof) in PROFILES.iter().enumerate() {
+        for kind in ["at-watermark-tx", "at-watermark-rx", "keep-ssrc-33"] {
+            let others = if kind == "keep-ssrc-33" { 32u32 } else { 31 };
+            let mut ops = new_pair(rng, pi, prof);
+            let g = 0x0a0b_0c0du32;
+            let mut slot = 0;
+            for k in 0..others { ops.push(Op::ProtectRtp(0, PktSpec::simple(5, 0x2000 + k, vec![1, 2, 3]))); ops.push(Op::UnprotectRtp(1, Src::Slot(slot))); slot += 1; }
+            for seq in [65000u16, 65500, 100, 200] { ops.push(Op::ProtectRtp(0, PktSpec::simple(seq, g, vec![seq as u8, 2]))); ops.push(Op::UnprotectRtp(1, Src::Slot(slot))); slot += 1; }
+            ops.push(Op::Tick(61));
+            match kind {
+                "at-watermark-tx" => { ops.push(Op::ProtectRtp(0, PktSpec::simple(6, 0x2000, vec![9]))); ops.push(Op::UnprotectRtp(1, Src::Slot(slot))); slot += 1; }
+                "at-watermark-rx" => { ops.push(Op::ExtRtp(0, 0, PktSpec::simple(1, 0x7777, vec![9]))); ops.push(Op::UnprotectRtp(1, Src::Slot(slot))); slot += 1; }
+                _ => {}
+            }
+            for seq in [300u16, 301] { ops.push(Op::ProtectRtp(0, PktSpec::simple(seq, g, vec![seq as u8, 7]))); ops.push(Op::UnprotectRtp(1, Src::Slot(slot))); slot += 1; }
+            ops.push(Op::Snap(0)); ops.push(Op::Snap(1));
+            let kind: &'static str = match kind { "at-watermark-tx" => "at-watermark-tx", "at-watermark-rx" => "at-watermark-rx", _ => "keep-ssrc-33" };
+            emit(run, "sess", &Case { ops, expect: Expect::Sync, kind, three: false });
+        }
+    }
+}
+
+/// The cap's `live` count on MIXED tables: 1024 contexts of which `k` are 61 s idle and the rest 31 s —
+/// fewer than the cap are live, so the first packet (RTP, or RTCP) of a new stream must be accepted.
+fn cap_mixed_cases(run: &mut Run, rng: &mut Rng) {
+    for (pi, prof) in PROFILES.iter().enumerate() {
+        let k = [1u32, 1, 512, 1][pi];
+        let mut ops = new_pair(rng, pi, prof);
+        ops.push(Op::Fill(0, 1, 0x5000, k));
+        ops.push(Op::Tick(30));
+        ops.push(Op::Fill(0, 1, 0x5000 + k, 1024 - k));
+        ops.push(Op::Tick(31));
+        let rtcp_first = pi % 2 == 1;
+        if rtcp_first { ops.push(Op::ProtectRtcp(0, Src::Lit(rtcp_packet(rng, 0x9000, 12)))); ops.push(Op::UnprotectRtcp(1, Src::Slot(0))); }
+        else { ops.push(Op::ProtectRtp(0, PktSpec::simple(1, 0x9000, vec![1, 2]))); ops.push(Op::UnprotectRtp(1, Src::Slot(0))); }
+        ops.push(Op::ProtectRtp(0, PktSpec::simple(2, 0x9000, vec![3]))); ops.push(Op::UnprotectRtp(1, Src::Slot(1)));
+        emit(run, "sess", &Case { ops, expect: Expect::Sync, kind: "cap-mixed-table", three: false });
     }
 }
 
@@ -934,6 +1040,8 @@ pub fn run(args: &Args) {
     bigstate_cases(&mut run, &mut rng, t);
     many_ssrc_cases(&mut run, &mut rng);
     active_stream_cases(&mut run, &mut rng);
+    watermark_cases(&mut run, &mut rng);
+    cap_mixed_cases(&mut run, &mut rng);
     cap_cases(&mut run, &mut rng);
     badkey_cases(&mut run, &mut rng);
     let nh = if t { 6000 } else { 700 };
